@@ -258,7 +258,7 @@ def r_halfrank(xs, params):
         c['order_of_finite_preserved'] = oc['order']
         c['ties_preserved'] = oc['ties']
         c['output_finite_or_nan'] = all(fin(v) or math.isnan(v) for v in o)
-        if n > 1:
+        if n > 1 and fy:              # (size 1 / no finite label: warp returns early and saves nothing)
             uw = w._unwarper
             c['unwarper_saved'] = uw is not None
             if uw is not None:
